@@ -93,7 +93,7 @@ PROPS = {
         runs=[('mvcc', gens.gen_mvcc_visit, 300, 20000)],
         keep_prefix=1,
         level='proof',
-        level_text='C10_visitor_partition: for every snapshot with references, EVERY pivot list, every shard count, the concatenation over shards equals the content, each shard ascends and lies below the next, a failing callback yields an error; pivot filter and end-of-shard comparator/test regenerated from nitro.go. Termination of the dispatcher is by the channel capacity argument recorded in DESIGN.md (D19 fix)',
+        level_text='C10_visitor_partition: for every snapshot with references, EVERY pivot list, every shard count, the concatenation over shards equals the content, each shard ascends and lies below the next, a failing callback yields an error; pivot filter and end-of-shard comparator/test regenerated from nitro.go. Termination (Props/C10pool, small-step model of the dispatcher, the buffered work channel, the workers and the errors slice, every number of shards/workers/failing shards, every schedule): C10_pool_no_deadlock (every run is at most 3n+1+c steps and ends final when capacity >= shards, which is what the code has: both are len(pivotItems)-1, pinned by visitor_channel_holds_every_shard), C10_pool_no_deadlock_sharp / C10_pool_deadlock_free_iff (exact threshold n <= cap + c), C10_pool_unfixed_hang_witness (the sizing before fix D19), C10_pool_error_reported / C10_pool_error_iff / C10_pool_final_dichotomy',
         trusted=['Lean 4 kernel', 'tools/gofacts translation of the Visitor pivot filter and end test (comparator kind and comparison)',
                  'differential run: Visitor with 1..200 shards, concurrency 1..8, failing callbacks, latest and older snapshots',
                  'GetRangeSplitItems is not modelled: the theorem holds for every list of pivot items'],
@@ -125,11 +125,11 @@ PROPS = {
         runs=[('skipseq', gens.gen_skipseq, 300, 20000)],
         iruns=[('skipconc', gens.gen_skipconc, 150, 5000)],
         level='proof',
-        level_text='Sequential part proved in full on a pointer-level heap model (C13_sequential: every script with every level request equals the ordered set; C13_delete_once). Concurrent part proved on the CAS-granularity model for any number of threads and all interleavings: C13_invariant, C13_updates_linearize (the abstract set changes only at a successful publish of an absent key or level-0 mark of a present node), C13_live_keys_distinct, C13_one_deleter, C13_reads_hit_partial, C13_reads_miss (a miss implies absence at an instant inside the call). PARTIAL: assembling the per-call linearization points into one total order for a whole history is not mechanised. Tie: regenerated tests/skeletons, scripted-level differential runs, steered schedules validated step by step against the executable model',
+        level_text='Sequential part proved in full on a pointer-level heap model (C13_sequential: every script with every level request equals the ordered set; C13_delete_once). Concurrent part proved on the CAS-granularity model for any number of threads and ALL interleavings, over whole histories: C13_linearizable (Props/C13linSeq: the explicit, computable sequential history `linearization n as` of every run replays on the set specification with every recorded result, walks through the trace of abstract sets, contains every completed Insert/Delete/Lookup exactly once with the result it printed, and respects real time), C13_lin_insert / C13_lin_delete / C13_lin_lookup / C13_lin_changes / C13_lin_change_is_point / C13_lin_real_time (Props/C13lin: each completed call has exactly one linearization point inside its interval — the successful INS_PUBLISH CAS, the winning level-0 SOFT_MARK, or an instant at which the answer of a read/failed update is true — and no change of the abstract set happens outside a call), plus the state theorems C13_invariant, C13_updates_linearize, C13_live_keys_distinct, C13_one_deleter, C13_reads_miss. Tie: regenerated tests/skeletons/shapes, scripted-level differential runs, steered schedules validated step by step against the executable model',
         trusted=['Lean 4 kernel', 'tools/gofacts translation of findPath/helpDelete/softDelete/NewLevel tests and skeletons of findPath, Insert4, softDelete, deleteNode',
                  'steered schedules at the skiplist yield points on the real list (user-managed memory), every trace validated against the model, final walk of all levels',
                  'node ids are never recycled in the model (memory reuse is the subject of C04); unsafe pointer packing of node_amd64.go is not modelled',
-                 'the last composition step (per-call linearization points to a total order) is the standard argument, not mechanised'],
+                 'linearizability is proved of the model (one step per yield-point segment); interleavings inside a segment of the real code are not explored'],
     ),
     'C14': dict(
         modules=['NitroVerif.Props.C14', 'NitroVerif.Props.C14c'],
@@ -146,7 +146,7 @@ PROPS = {
         modules=['NitroVerif.Props.C15', 'NitroVerif.Props.C15scan'],
         iruns=[('skipconc', gens.gen_skipconc, 150, 6000), ('skipconc', gens.gen_skipconc_scan, 100, 4000), ('skipconc', gens.gen_skipconc_free, 60, 3000)],
         level='proof',
-        level_text='C15_monotone_partial, C15_research_ge_partial (Next never moves backwards on any of its three paths), C15_seek_ge_partial, C15_seek_no_stable_between are proved for every interleaving on the concurrent model. PARTIAL: whole-scan completeness/presence (C15_complete, C15_present) are not proved; steered schedules with iterators parked on nodes that are deleted (helpDelete success and failure paths) are validated against the model',
+        level_text='Whole scans (Props/C15scan, history variables next to the unchanged model, every run, every number of threads): C15_complete (every node published before the scan started, still unmarked, with seek key <= key < cursor key has been returned — in every state in which no call of the scan is in progress; for the first call this is "Seek(x) lands on an item >= x with no stable item in between"), C15_complete_at_end, C15_monotone (strictly larger key, or the same key with the earlier node deleted and the later one published after the earlier return), C15_present_partial (every returned position is a published node still on the level-0 chain in the state of the return; unmarked when the returning segment ended a findPath). The literal reading of "present at some moment during the scan" as "unmarked at level 0" is REFUTED for the model and the real code (C15_present_refuted / C15_present_counterexample: a node whose Delete is parked between softDelete and its cleaning search is returned by SeekFirst / Next; replayed with the Go harness) — its Delete has not returned yet, which is the reading the check uses. Per-step theorems C15_monotone_partial, C15_research_ge_partial, C15_seek_ge_partial, C15_seek_no_stable_between, C15_refresh_after_step. Steered schedules with iterators parked on nodes that are deleted (helpDelete success and failure paths), finite refresh intervals and real reclamation are validated against the model',
         trusted=['Lean 4 kernel', 'tools/gofacts skeleton of skiplist Iterator.Next', 'steered iterator/insert/delete schedules validated step by step'],
     ),
     'C18': dict(
@@ -204,7 +204,7 @@ PROPS = {
         modules=['NitroVerif.Props.C03', 'NitroVerif.Props.C13c', 'NitroVerif.Props.C13linSeq'],
         iruns=[('mvccconc', gens.gen_mvccconc, 150, 6000), ('skipconc', gens.gen_skipconc, 100, 4000)],
         level='proof',
-        level_text='C03_linearizable_atomic_search_partial: for every number of writers and every schedule of all actions (writers, readers, closes, collection and free jobs, any number of epochs) the constructed linearization (decisive step of each call; a losing Delete at the winner step) replays on the reference set with every observed result and each point lies between call and return; C03_next_snapshot, C03_one_winner, C03_same_node_losers. PARTIAL: every skiplist operation is one atomic action of this model; that is justified by the concurrent skiplist theorems C13 (updates linearize at the publish / level-0 mark, misses are absent at an instant inside the call), whose composition with this model is argued, not mechanised',
+        level_text='C03_linearizable_atomic_search_partial: for every number of writers and every schedule of all actions (writers, readers, closes, collection and free jobs, any number of epochs) the constructed linearization (decisive step of each call; a losing Delete at the winner step) replays on the reference set with every observed result and each point lies between call and return; C03_next_snapshot, C03_one_winner, C03_same_node_losers. PARTIAL: every skiplist operation is one atomic action of this model; that is justified by the concurrent skiplist theorem C13_linearizable (every run of the CAS-granularity skiplist model has an explicit sequential history with one point per call inside its interval; included in this check); substituting that history for the atomic actions of this model is argued, not mechanised',
         trusted=['Lean 4 kernel', 'tools/gofacts guards and skeletons of Put2/Delete2/DeleteNode',
                  'steered writers on the real Nitro at the nitro-level yield points (same key hit by several writers, same-epoch and cross-epoch deletes), every trace validated against the model',
                  'atomicity of a skiplist operation inside a step (C13); sync/atomic operations sequentially consistent'],
